@@ -9,7 +9,7 @@
    (pc, le, sizeof, ..., incbin) are answered before the table is asked (finding F54). *)
 From Coq Require Import ZArith NArith List Bool Arith.
 From CA Require Import Model.Paths Model.Symbols Model.ConstPass Model.SymResolve Spec.Scope Spec.ConstDen
-  Proofs.SymbolsP Proofs.SymResolveP Proofs.ConstPassP.
+  Proofs.SymbolsP Proofs.SymResolveP Proofs.ConstPassP Proofs.ConstLoopP.
 Import ListNotations.
 Open Scope nat_scope.
 
@@ -78,50 +78,79 @@ Theorem C15_forward : forall nodes m ast, fresh nodes -> collect mgr_new nodes =
 Proof. exact forward_spec. Qed.
 
 (* ---------------------------------------------------------------- constants *)
-(* FULL statement (not proved in Coq; checked on the implementation by the `rounds` and `chain` streams):
-   started from the all-unknown table, the pre-pass loop with fuel |constants| + 1 never runs out of fuel, and
-   when it returns, every address-free acyclic constant holds its denotation. *)
-Definition C15_constants_fixpoint_statement : Prop :=
-  forall nm opt m cs look n,
-    (forall p, try_get_by_name m ctx_global 0 p = ROk (look p)) ->
-    NoDup (map fst cs) -> (forall r e, In (r, e) cs -> r < n) ->
-    let defs0 := define_symbols n (expr_of cs) in
-    prepass nm opt m cs defs0 <> RFuel /\
-    forall defs, prepass nm opt m cs defs0 = ROk defs ->
-      forall r z, den (plain nm) look cs r z -> vals defs r = VInt z.
+(* The pre-pass loop of asm::assemble (Model/ConstPass.v), started from the table defs::define_symbols builds
+   (every value Unknown, nothing flagged resolved), for ANY set of constants with distinct items and ANY table m
+   whose global lookup is `look` (C15_global_lookup: every table built by decls::collect has one):
+   (1) the fuel |constants| + 1 is always enough - the loop stops within that many rounds;
+   (2) the table it stops in is stable: every constant holds what its expression evaluates to there, so one more
+       round changes nothing;
+   (3) a symbol holds an integer in it EXACTLY when it has a denotation (Spec/ConstDen.v: finite derivation
+       through literals, + - * and global references to constants), and then that integer is the denotation.
+   Constants on a cycle (`a = b`, `b = a`), and everything depending on one, on a label, on an undeclared or dotted
+   name, have no denotation: they stay Unknown and the pre-pass reports nothing (C15_cycles; the main passes
+   then end in "unresolved symbol" / "did not converge", checked by the `chain` stream).
+   The expression language of this model has strict operators only.  With the lazy ones of the real evaluator
+   (`a = 1 == 1 || a`, `c = 1 == 1 ? 5 : c`) a constant that names itself in a branch that is not taken DOES get its
+   value (the implementation gives c = 5); that is a least fixed point of a non-strict functional and is covered by
+   C01's chain analysis (Spec/Chain.v), not by `den`; the `rounds` stream checks these programs on the implementation. *)
+Theorem C15_constants_fixpoint : forall nm opt m cs look,
+  (forall p, try_get_by_name m ctx_global 0 p = ROk (look p)) -> NoDup (map fst cs) ->
+  forall d0, fresh_defs d0 ->
+    prepass nm opt m cs d0 <> RFuel /\
+    forall d, prepass nm opt m cs d0 = ROk d ->
+      stable nm m cs d /\ (forall r z, vals d r = VInt z <-> den (plain nm) look cs r z).
+Proof. exact prepass_spec. Qed.
 
-(* PROVED part: (1) evaluation is monotone in the information order Unknown <= v (DESIGN A.7);
-   (2) in every STABLE table - one where each constant holds what its expression evaluates to, which is what
-   the loop's stop rule "resolved count unchanged" is meant to detect - every address-free acyclic constant
-   equals its denotation, by induction on the dependency depth (the derivation of `den`).
-   MISSING: that the table the loop stops in is stable (known values never change, so an unchanged count means
-   an unchanged table) and the fuel bound. *)
-Theorem C15_constants_fixpoint_partial : forall nm m cs look,
+Theorem C15_fresh_table : forall n f, fresh_defs (define_symbols n f).
+Proof. exact define_symbols_fresh. Qed.
+
+Theorem C15_global_lookup : forall m F next, Inv m F next ->
+  forall p, try_get_by_name m ctx_global 0 p = ROk (scope_resolve F [] 0 p).
+Proof. exact global_lookup. Qed.
+
+(* the two ingredients: evaluation is monotone in the information order Unknown <= v (DESIGN A.7); in a stable table
+   every address-free acyclic constant equals its denotation (induction on the dependency depth) *)
+Theorem C15_eval_monotone : forall nm m d1 d2 e, below d1 d2 ->
+  eval_simple nm m d1 e = ROk VUnknown \/ eval_simple nm m d1 e = eval_simple nm m d2 e.
+Proof. exact eval_monotone. Qed.
+
+Theorem C15_stable_den : forall nm m cs look,
   (forall p, try_get_by_name m ctx_global 0 p = ROk (look p)) ->
   forall defs, stable nm m cs defs ->
   forall r z, den (plain nm) look cs r z -> vals defs r = VInt z.
 Proof. exact stable_den. Qed.
 
-Theorem C15_eval_monotone : forall nm m d1 d2 e, below d1 d2 ->
-  eval_simple nm m d1 e = ROk VUnknown \/ eval_simple nm m d1 e = eval_simple nm m d2 e.
-Proof. exact eval_monotone. Qed.
+(* cycles, exactly: no denotation, no integer *)
+Theorem C15_cycles : forall nm opt m cs look d0 d,
+  (forall p, try_get_by_name m ctx_global 0 p = ROk (look p)) -> NoDup (map fst cs) -> fresh_defs d0 ->
+  prepass nm opt m cs d0 = ROk d ->
+  forall r, (forall z, ~ den (plain nm) look cs r z) -> forall z, vals d r <> VInt z.
+Proof. exact no_den_no_value. Qed.
 
-(* FULL statement of C15_order: two programs that declare the same constants (same full names, same
-   expressions) at other positions of the same scopes assemble to the same symbol values.  PROVED part: the
-   value of an address-free acyclic constant in a stable table does not depend on the order in which the
-   constants are visited - any two stable tables, for any two orderings cs, cs' of the same constants, agree.
-   MISSING: as above, plus the renumbering of item indices when declarations move (checked by the `order`
-   stream on the implementation). *)
-Theorem C15_order_partial : forall nm m cs cs' look,
+(* ---------------------------------------------------------------- independence of declaration order *)
+(* For every permutation of the constant declarations (the order in which the pre-pass visits them): both runs
+   succeed or fail without running out of fuel (C15_constants_fixpoint), and when both return, every address-free
+   acyclic constant has the same value in both - its denotation.  Unconditional: no stability hypothesis. *)
+Theorem C15_order_independent : forall nm opt m cs cs' look d0 d0' d d',
   (forall p, try_get_by_name m ctx_global 0 p = ROk (look p)) ->
-  (forall x, In x cs <-> In x cs') ->
-  forall d1 d2, stable nm m cs d1 -> stable nm m cs' d2 ->
-  forall r z, den (plain nm) look cs r z -> vals d1 r = vals d2 r.
-Proof.
-  intros nm m cs cs' look L P d1 d2 S1 S2.
-  apply (stable_unique nm m cs look L d1 d2 S1).
-  apply (stable_perm nm m cs' cs d2); [intro x; symmetry; apply P | exact S2].
-Qed.
+  NoDup (map fst cs) -> Permutation.Permutation cs cs' ->
+  fresh_defs d0 -> fresh_defs d0' ->
+  prepass nm opt m cs d0 = ROk d -> prepass nm opt m cs' d0' = ROk d' ->
+  forall r z, den (plain nm) look cs r z -> vals d r = VInt z /\ vals d' r = VInt z.
+Proof. exact order_independent. Qed.
+
+(* the same when moving the declarations also renumbers the items (sigma) and rebuilds the table (m'), as it does in
+   a source file: the two tables resolve global names alike up to sigma, the constants keep their expressions *)
+Theorem C15_order_independent_renumbered : forall nm opt opt' m m' cs cs' look look' sigma d0 d0' d d',
+  (forall p, try_get_by_name m ctx_global 0 p = ROk (look p)) ->
+  (forall p, try_get_by_name m' ctx_global 0 p = ROk (look' p)) ->
+  NoDup (map fst cs) -> NoDup (map fst cs') ->
+  (forall p r, look p = Some r -> look' p = Some (sigma r)) ->
+  (forall r e, In (r, e) cs -> In (sigma r, e) cs') ->
+  fresh_defs d0 -> fresh_defs d0' ->
+  prepass nm opt m cs d0 = ROk d -> prepass nm opt' m' cs' d0' = ROk d' ->
+  forall r z, den (plain nm) look cs r z -> vals d r = VInt z /\ vals d' (sigma r) = VInt z.
+Proof. exact order_independent_renumbered. Qed.
 
 (* ---------------------------------------------------------------- non-vacuity *)
 Definition tx (s : list nat) : text := map N.of_nat s.
@@ -191,3 +220,28 @@ Example C15_nonvacuous_constants :
   | _ => False
   end.
 Proof. vm_compute. repeat split. Qed.
+
+(* the bound |constants| + 1 is tight: k0 = k1 + 1 ; k1 = k2 + 1 ; k2 = 5 in that order needs 4 rounds (counts 1, 2, 3, 3);
+   with fuel 3 the loop would run out *)
+Example C15_fuel_tight :
+  match collect mgr_new [ASym 0 (tx [107; 48]) KConstant None; ASym 0 (tx [107; 49]) KConstant None;
+                         ASym 0 (tx [107; 50]) KConstant None] with
+  | ROk (m, _) =>
+      let cs := [(0, CAdd (CRef 0 [tx [107; 49]]) (CLit 1)); (1, CAdd (CRef 0 [tx [107; 50]]) (CLit 1)); (2, CLit 5)] in
+      prepass_loop 3 no_names true m cs 0 (define_symbols 3 (expr_of cs)) = RFuel /\
+      match prepass_loop 4 no_names true m cs 0 (define_symbols 3 (expr_of cs)) with
+      | ROk defs => vals defs 0 = VInt 7 /\ vals defs 1 = VInt 6 /\ vals defs 2 = VInt 5
+      | _ => False
+      end
+  | _ => False
+  end.
+Proof. vm_compute. repeat split. Qed.
+
+(* a = b ; b = a : the pre-pass returns with both Unknown, and neither has a denotation *)
+Example C15_nonvacuous_cycle :
+  exists m ast F next, collect mgr_new cyc_nodes = ROk (m, ast) /\ Inv m F next /\
+    exists d, prepass names0 true m cyc_cs (define_symbols 2 (expr_of cyc_cs)) = ROk d /\
+      vals d 0 = VUnknown /\ vals d 1 = VUnknown /\
+      (forall z, ~ den (plain names0) (scope_resolve F [] 0) cyc_cs 0 z) /\
+      (forall z, ~ den (plain names0) (scope_resolve F [] 0) cyc_cs 1 z).
+Proof. exact cycle_example. Qed.
